@@ -54,6 +54,10 @@ CATALOGUE = [
     ('c12-default-path-parent', 'C12', BUILD, "DEFAULT_LUA_PATH = '?;?.lua'", "DEFAULT_LUA_PATH = '?;?.lua;../?.lua'", 'red'),
     ('c12-cart-path-added', 'C12', P8, "    '~/.lexaloffle/pico-8/carts',  # Linux\n",
      "    '~/.lexaloffle/pico-8/carts',  # Linux\n    '~/.lexaloffle',\n", 'red'),
+    ('c12-substitute-before-split', 'C12', BUILD,
+     "    for lookup_p in lua_path.split(';'):\n        candidate = lookup_p.replace('?', p)\n",
+     "    for candidate in lua_path.replace('?', p).split(';'):\n", 'red'),
+    ('c12-first-placeholder-only', 'C12', BUILD, "lookup_p.replace('?', p)", "lookup_p.replace('?', p, 1)", 'red'),
     # ---- C12: harmless
     ('c12-harmless-comment', 'C12', P8, "        # (Only assert filename if there's an #include.)\n", "        # only assert filename if there is an include\n", 'green'),
     ('c12-harmless-message', 'C12', BUILD, "'require() filename cannot contain \"./\" or \"../\" or start '",
